@@ -33,11 +33,21 @@ package contracts_test
 // (resolveFileContractElement), so the revision number the chain held before the block is not
 // in the diff and the host keeps reporting the reverted revision as confirmed: a recorded
 // finding (v1-revision-and-proof-same-block-revert-keeps-revision), not repairable inside hostd.
+//
+// Cases 6/7: a v1 contract formed AND proven in the same block.  The RHP validators bound the
+// window start against the height of the negotiation, consensus against the height of the block
+// that confirms the formation: a formation set nobody mines until the block at the window start
+// is confirmed together with a storage proof of the (empty) contract.  core's diff has Created
+// and Resolved set.  Case 6 connects the block: the contract is successful, resolved at that
+// height, nothing active or locked in the metrics (before
+// fixes/C01-v1-created-and-resolved-same-block.patch: active for good).  Case 7 disconnects it:
+// unconfirmed again (RevertContracts undoes the formation last).
 
 import (
 	"context"
 	"fmt"
 	"testing"
+	"time"
 
 	rhp2 "go.sia.tech/core/rhp/v2"
 	proto4 "go.sia.tech/core/rhp/v4"
@@ -237,6 +247,7 @@ func TestVerifC01SameBlock(t *testing.T) {
 	}
 	vfSameBlockV1(t, em, log)
 	vfSameBlockV1Proof(t, em, log)
+	vfSameBlockV1FormProof(t, em, log)
 }
 
 // vfSameBlockV1: cases 2 and 3 on a v1 network
@@ -507,6 +518,127 @@ func vfSameBlockV1Proof(t *testing.T, em *verifEmitter, log *zap.Logger) {
 		} else if c.RevisionConfirmed {
 			em.Monitor("v1-revision-and-proof-same-block-revert-keeps-revision",
 				fmt.Sprintf("the block revising %v to revision 2 and proving it was disconnected, the best chain holds revision 0: revision confirmed %v (want false)", contractID, c.RevisionConfirmed))
+		}
+	}
+}
+
+// vfSameBlockV1FormProof: cases 6 and 7 on a v1 network
+func vfSameBlockV1FormProof(t *testing.T, em *verifEmitter, log *zap.Logger) {
+	if em.Skip(6) && em.Skip(7) {
+		return
+	}
+	renterKey, hostKey := types.GeneratePrivateKey(), types.GeneratePrivateKey()
+	network, genesis := testutil.V1Network()
+	node := testutil.NewHostNode(t, hostKey, network, genesis, log)
+	fork := testutil.NewConsensusNode(t, network, genesis, log)
+	testutil.MineAndSync(t, node, node.Wallet.Address(), int(network.MaturityDelay+5))
+	cm, com := node.Chain, node.Contracts
+
+	// negotiated now, window start 15 blocks ahead; the formation set goes to the pool
+	rev := formContract(t, cm, com, node.Wallet, node.Syncer, node.Settings, renterKey, hostKey, types.Siacoins(10), types.Siacoins(20), 15, true)
+	contractID := rev.Revision.ParentID
+	ws := rev.Revision.WindowStart
+	// nobody mines it: empty blocks up to the block before the window start
+	for cm.Tip().Height < ws-1 {
+		if err := cm.AddBlocks([]types.Block{mineEmptyBlock(cm.TipState(), types.VoidAddress)}); err != nil {
+			t.Fatal(err)
+		}
+		testutil.WaitForSync(t, node.Chain, node.Indexer)
+	}
+	forkHeight := cm.Tip().Height
+	var shared []types.Block
+	for h := uint64(1); h <= forkHeight; h++ {
+		index, _ := cm.BestIndex(h)
+		b, ok := cm.Block(index.ID)
+		if !ok {
+			t.Fatalf("missing block at height %d", h)
+		}
+		shared = append(shared, b)
+	}
+	if err := fork.Chain.AddBlocks(shared); err != nil {
+		t.Fatal(err)
+	}
+	// a storage proof of the empty contract joins the formation in the pool
+	proofTxn := types.Transaction{StorageProofs: []types.StorageProof{{ParentID: contractID}}}
+	if _, err := cm.AddPoolTransactions(append(cm.PoolTransactions(), proofTxn)); err != nil {
+		t.Fatal("failed to add storage proof to pool:", err)
+	}
+
+	// what the store shows, as the StateChanges of the single created+resolved diff of contract 1
+	// (created element at revision 0; the stored revision is number 1, so RevisionConfirmed is
+	// false either way and says nothing about the Revised entry: it is taken as recorded)
+	changes := func(revert bool) string {
+		c, err := com.Contract(contractID)
+		if err != nil {
+			t.Fatal(err)
+		}
+		var confirmed, successful []string
+		if c.FormationConfirmed != revert {
+			confirmed = append(confirmed, "1")
+		}
+		if (c.Status == contracts.ContractStatusSuccessful) != revert {
+			successful = append(successful, "1")
+		}
+		return fmt.Sprintf("(Some (mkCh %s [(1, 0)] %s [] [] [] [] [] []))", coqList(confirmed), coqList(successful))
+	}
+
+	// case 6: the block at the height of the window start carries the formation and the proof
+	if !em.Skip(6) {
+		testutil.MineAndSync(t, node, types.VoidAddress, 1)
+		if n := len(cm.PoolTransactions()); n != 0 {
+			t.Fatalf("setup: %d transactions left in the pool", n)
+		}
+		c, err := com.Contract(contractID)
+		if err != nil {
+			t.Fatal(err)
+		}
+		m, err := node.Store.Metrics(time.Now())
+		if err != nil {
+			t.Fatal(err)
+		}
+		em.curDesc = "formation and storage proof of one v1 contract connected in one block"
+		em.FunCase(6, "(false, [mkFD 1 true true 0 None true true false], [])", changes(false), true)
+		em.Count("same-block:v1-formation+proof:apply")
+		if c.Status != contracts.ContractStatusSuccessful || !c.FormationConfirmed || c.ResolutionHeight != ws ||
+			m.Contracts.Active != 0 || m.Contracts.Successful != 1 || !m.Contracts.LockedCollateral.IsZero() {
+			em.Monitor("same-block-v1-formation-and-resolution-not-both-recorded",
+				fmt.Sprintf("block %d forms and proves %v: status %v (want successful), formation confirmed %v, resolution height %d (want %d); metrics active %d successful %d locked collateral %v",
+					ws, contractID, c.Status, c.FormationConfirmed, c.ResolutionHeight, ws, m.Contracts.Active, m.Contracts.Successful, m.Contracts.LockedCollateral))
+		}
+	}
+
+	// case 7: that block is disconnected (the fork has empty blocks)
+	if !em.Skip(7) && !em.Skip(6) {
+		testutil.MineBlocks(t, fork, types.VoidAddress, 2)
+		var alt []types.Block
+		for h := forkHeight + 1; h <= fork.Chain.Tip().Height; h++ {
+			index, _ := fork.Chain.BestIndex(h)
+			b, _ := fork.Chain.Block(index.ID)
+			alt = append(alt, b)
+		}
+		if err := cm.AddBlocks(alt); err != nil {
+			t.Fatal(err)
+		}
+		testutil.WaitForSync(t, node.Chain, node.Indexer)
+		if cm.Tip() != fork.Chain.Tip() {
+			t.Fatalf("setup: no reorg: %v != %v", cm.Tip(), fork.Chain.Tip())
+		}
+		c, err := com.Contract(contractID)
+		if err != nil {
+			t.Fatal(err)
+		}
+		m, err := node.Store.Metrics(time.Now())
+		if err != nil {
+			t.Fatal(err)
+		}
+		em.curDesc = "the block forming and proving one v1 contract disconnected"
+		em.FunCase(7, "(true, [mkFD 1 true true 0 None true true false], [])", changes(true), true)
+		em.Count("same-block:v1-formation+proof:revert")
+		if c.FormationConfirmed || c.ResolutionHeight != 0 || (c.Status != contracts.ContractStatusPending && c.Status != contracts.ContractStatusRejected) ||
+			m.Contracts.Active != 0 || m.Contracts.Successful != 0 {
+			em.Monitor("same-block-v1-formation-and-resolution-revert-not-undone",
+				fmt.Sprintf("status %v (want pending or rejected), formation confirmed %v (want false), resolution height %d (want 0); metrics active %d successful %d",
+					c.Status, c.FormationConfirmed, c.ResolutionHeight, m.Contracts.Active, m.Contracts.Successful))
 		}
 	}
 }
